@@ -884,6 +884,10 @@ class GssapiWithMicAuthHandler:
         self._restore_delegate_auth_handler()
         return self._delegate.abort()
 
+    def is_authenticated(self):
+        # Transport.is_authenticated() asks whatever handler is installed
+        return self._delegate.is_authenticated()
+
     @property
     def transport(self):
         return self._delegate.transport
